@@ -1393,6 +1393,10 @@ struct Layout {
     max_per: usize,
     ttl_ms: u64,
     clock: Clock,
+    /// what a flush leaves behind whose segment upload succeeded and whose manifest save failed: a valid segment object (with
+    /// other content) under the very id the next writer - flush or compaction - will pick
+    #[serde(default)]
+    residue: bool,
 }
 
 const FILLER: usize = 3000;
@@ -1450,6 +1454,16 @@ async fn build_layout(l: &Layout) -> PlanStore {
             let mut m = mm.load().await.expect("manifest");
             m.compact_segments(CheckpointInfo { key: r.key, timestamp_ms: r.timestamp_ms, key_count: r.key_count, last_segment_id: r.last_segment_id });
             mm.save(&m).await.expect("manifest save");
+        }
+    }
+    if l.residue {
+        // the object a failed flush leaves: a valid segment (a copy of the oldest one, i.e. other content than whatever will be
+        // written next) under the id the manifest hands out next, referenced by nothing
+        let objs = store.objects();
+        if let Ok(m) = serde_json::from_slice::<redis_sim::streaming::Manifest>(&objs[&format!("{}/manifest.json", PFX)]) {
+            if let Some(first) = objs.iter().find(|(k, _)| obj_class(k) == "segment").map(|(_, v)| v.clone()) {
+                let _ = store.put(&format!("{}/segments/segment-{:08}.seg", PFX, m.next_segment_id), &first).await;
+            }
         }
     }
     store
@@ -1520,6 +1534,7 @@ async fn integration_worker_cases(rep: &mut Report) {
                 max_per: 10,
                 ttl_ms,
                 clock: Clock::ProdWall { pivot },
+                residue: false,
             };
             let store = build_layout(&l).await;
             let Ok(before) = recover_fold(&store.objects()).await else {
@@ -1770,6 +1785,9 @@ fn sub_second_age_class(l: &Layout, stamp: u64) -> Option<&'static str> {
 async fn layout_case(rep: &mut Report, l: &Layout, want_sample: bool, corrupt: Option<(Rng, bool)>) {
     rep.evaluations += 1;
     rep.count("layouts");
+    if l.residue {
+        rep.count("layouts_with_the_residue_of_a_failed_flush_under_the_next_segment_id");
+    }
     let o = match eval_layout(l).await {
         Ok(o) => o,
         Err(e) => return rep.inconclusive(format!("layout could not be evaluated: {}", e)),
@@ -1896,7 +1914,7 @@ fn gen_layout(rng: &mut Rng) -> Layout {
         _ => Clock::ProdWall { pivot: *[0, tt, tt + 1, 100].choose(rng).expect("non-empty") },
     };
     let ttl_ms = if matches!(clock, Clock::Manual { .. }) { *[0u64, 100, 5000].choose(rng).expect("non-empty") } else { HOUR_MS };
-    Layout { ckpt: if rng.gen_bool(0.25) { rng.gen_range(1..nseg) } else { 0 }, segs, target: *[2048usize, 2048, 450, 1 << 20].choose(rng).expect("non-empty"), max_per: *[2usize, 3, 5, 10].choose(rng).expect("non-empty"), ttl_ms, clock }
+    Layout { ckpt: if rng.gen_bool(0.25) { rng.gen_range(1..nseg) } else { 0 }, segs, target: *[2048usize, 2048, 450, 1 << 20].choose(rng).expect("non-empty"), max_per: *[2usize, 3, 5, 10].choose(rng).expect("non-empty"), ttl_ms, clock, residue: rng.gen_bool(0.2) }
 }
 
 /// Corner layouts that every run evaluates (ties, disjoint hash fields, tombstones around the cutoff with the older
@@ -1907,7 +1925,7 @@ fn directed_layouts() -> Vec<Layout> {
     let big = |ups: Vec<U>| Seg { ups, large: true };
     let val = |s: &str| UK::Val(s.into());
     let hs = |f: &str, v: &str| UK::HSet(vec![(f.into(), v.into())]);
-    let base = |segs: Vec<Seg>, clock: Clock| Layout { segs, ckpt: 0, target: 2048, max_per: 10, ttl_ms: if matches!(clock, Clock::Manual { .. }) { 100 } else { HOUR_MS }, clock };
+    let base = |segs: Vec<Seg>, clock: Clock| Layout { segs, ckpt: 0, target: 2048, max_per: 10, ttl_ms: if matches!(clock, Clock::Manual { .. }) { 100 } else { HOUR_MS }, clock, residue: false };
     let never = Clock::Manual { cutoff: 0 };
     let mut v = vec![];
     for (r0, r1) in [(1, 2), (2, 1)] {
@@ -2136,7 +2154,7 @@ fn gen_interleave(rng: &mut Rng) -> (Layout, Vec<U>) {
         let key = format!("k{}", rng.gen_range(0..3));
         batch.push(up(rng, key));
     }
-    (Layout { segs, ckpt: 0, target: 2048, max_per: 10, ttl_ms: 1000, clock: Clock::Manual { cutoff: 0 } }, batch)
+    (Layout { segs, ckpt: 0, target: 2048, max_per: 10, ttl_ms: 1000, clock: Clock::Manual { cutoff: 0 }, residue: false }, batch)
 }
 
 async fn compact_body(rep: &mut Report, args: &Args) {
